@@ -117,6 +117,13 @@ impl World {
         std::mem::take(&mut self.0.borrow_mut().module_events)
     }
 
+    /// Records a module call that is answered by one of the repo's own modules (no fault plan).
+    pub fn module_call_rec(&self, kind: &str, sender: &str, payload: String) {
+        let mut w = self.0.borrow_mut();
+        w.module_calls.push(ModCall { kind: kind.to_string(), sender: sender.to_string(), payload });
+        *w.call_counts.entry(kind.to_string()).or_insert(0) += 1;
+    }
+
     /// Records a module call; returns true when the fault plan says this call must fail.
     pub fn module_call(&self, kind: &str, sender: &str, payload: String) -> bool {
         let mut w = self.0.borrow_mut();
